@@ -125,6 +125,7 @@ Proof.
               inv_some. exists [TSym SLBrace; TSym SRBrace]. split; [reflexivity|]. apply (D_set [] []). constructor.
            ++ destruct rest as [|t' rest']; [discriminate|]. destruct t' as [|s'|]; try discriminate. destruct s'; try discriminate.
               inv_some. exists [TSym SLBrace; TSym SRBrace]. split; [reflexivity|]. apply (D_set [] []). constructor.
+           ++ discriminate.
       * inv_some. exists [TId n]. split; [reflexivity|apply D_ident].
   - (* RChain *)
     assert (sound_ans (RChain L a) ts (AExpr a ts)) as Stop.
